@@ -147,6 +147,8 @@ TMChecks(o) ==
               lonExp == Add(FromInt(CMdeg(prj, o.fwd.zone)), IF o.tdl[1] < 0 THEN Neg(londeg) ELSE londeg)
           IN << <<"oracle_residuals", ResidualsOK(t.res)>>,
                 <<"c01_shipped_ellipsoid_constants", ConstantsOK(o.ell.name, FromJ(o.ell.a), FromJ(o.ell.invf))>>,
+                <<"c02_shipped_ellipsoid_constants", ConstantsOK(o.ell.name, FromJ(o.ell.a), FromJ(o.ell.invf))>>,
+                <<"c10_shipped_ellipsoid_constants", ConstantsOK(o.ell.name, FromJ(o.ell.a), FromJ(o.ell.invf))>>,
                 <<"c01_tm_easting", Within(E(o), Add(prj.fe, Mul(prj.k0, Mul(AA, t.eta))), Mm02)>>,
                 <<"c01_tm_northing", Within(N(o), Add(FNeff(prj, o.fwd.hemi), Mul(prj.k0, Mul(AA, t.xi))), Mm02)>>,
                 <<"c10_tm_scale_factor", Within(FromJ(o.fwd.psf), Mul(prj.k0, ScaleOverK0(FromJ(o.ell.a), n, o.tri, t)), Add(Psf2e8, Half8))>>,
@@ -173,6 +175,8 @@ TMAChecks(o) ==
          convExp == MulSmall(Deg(ConvMagnitudeSC(sc[2][1], sc[2][2], t)), sgn)
      IN << <<"oracle_residuals", ResidualsOK(t.res)>>,
            <<"c01_shipped_ellipsoid_constants", ConstantsOK(o.ell.name, FromJ(o.ell.a), FromJ(o.ell.invf))>>,
+                <<"c02_shipped_ellipsoid_constants", ConstantsOK(o.ell.name, FromJ(o.ell.a), FromJ(o.ell.invf))>>,
+                <<"c10_shipped_ellipsoid_constants", ConstantsOK(o.ell.name, FromJ(o.ell.a), FromJ(o.ell.invf))>>,
            <<"c01_tm_easting", Within(E(o), Add(prj.fe, Mul(prj.k0, Mul(AA, t.eta))), Mm02)>>,
            <<"c01_tm_northing", Within(N(o), Add(FNeff(prj, o.fwd.hemi), Mul(prj.k0, Mul(AA, t.xi))), Mm02)>>,
            <<"c10_tm_scale_factor", Within(FromJ(o.fwd.psf), Mul(prj.k0, ScaleOverK0SC(FromJ(o.ell.a), n, sc[1][1], sc[1][2], t)), Add(Psf2e8, Half8))>>,
